@@ -1079,6 +1079,8 @@ def array(x, dtype=None, copy=True, ndmin=0):
 
 
 def asarray(x, dtype=None):
+    if hasattr(x, "__sarr__"):
+        x = x.__sarr__()
     dt = as_dtype(dtype, none_ok=True)
     if isinstance(x, SArr) and (dt is None or dt == x.dtype):
         return x
@@ -1310,6 +1312,8 @@ def pad(a, width, constant_values=0, mode="constant"):
 
 # ------------------------------------------------------------------ logical / elementwise functions
 def _unary(a, f, dt=None):
+    if hasattr(a, "__sarr__"):
+        a = a.__sarr__()
     if isinstance(a, (list, tuple, _np.ndarray)):
         a = array(a)
     if isinstance(a, SArr):
@@ -1318,6 +1322,10 @@ def _unary(a, f, dt=None):
 
 
 def _binary(a, b, f, dt=None):
+    if hasattr(a, "__sarr__"):
+        a = a.__sarr__()
+    if hasattr(b, "__sarr__"):
+        b = b.__sarr__()
     if isinstance(a, (list, tuple, _np.ndarray)):
         a = array(a)
     if isinstance(b, (list, tuple, _np.ndarray)):
@@ -2007,7 +2015,11 @@ def _uf1(name, pyf):
         t = uf(name)(_real(v))
         TRIG_LOG.append((name, _real(v), t))
         return mk(t)
-    return lambda a: _unary(a, f, float64)
+    def g(a, dtype=None, out=None):
+        if out is not None:
+            raise Unsupported('ufunc out=')
+        return _unary(a, f, float64)
+    return g
 
 
 sin = _uf1("sin", math.sin)
@@ -2020,7 +2032,7 @@ exp = _uf1("exp", math.exp)
 log = _uf1("log", math.log)
 
 
-def arctan2(y, x):
+def arctan2(y, x, dtype=None):
     def f(p, q):
         if not isinstance(p, Sym) and not isinstance(q, Sym):
             return math.atan2(p, q)
@@ -2062,7 +2074,9 @@ class _Linalg:
     LinAlgError = _np.linalg.LinAlgError
 
     @staticmethod
-    def norm(a, axis=None):
+    def norm(a, ord=None, axis=None):
+        if ord not in (None, 2):
+            raise Unsupported(f"norm ord={ord}")
         a = asarray(a)
         if axis is None or a.ndim == 1:
             s = 0.0
